@@ -60,6 +60,10 @@ fn input_menu() -> Vec<(Option<&'static str>, Expect)> {
         (Some("[]"), Expect::Accept),
         (Some("[x.output]"), Expect::Accept),
         (Some("[x.out]"), Expect::Reject),
+        (Some("['a::b::x.output']"), Expect::Reject),
+        (Some("['::x.output']"), Expect::Reject),
+        (Some("['x::.output']"), Expect::Reject),
+        (Some("['x.output.output']"), Expect::Reject),
         (Some("[{paths: [a]}]"), Expect::Accept),
         (Some("[{paths: [a], extensions: [b]}]"), Expect::Accept),
         (Some("[{cmd_stdout: 'echo c'}]"), Expect::Accept),
@@ -452,6 +456,9 @@ pub fn check_c14(rep: &mut Report) {
     let (mut accepted, mut rejected) = (0u64, 0u64);
     let mut classes: BTreeMap<String, (String, serde_json::Value)> = BTreeMap::new();
     for r in &res {
+        if r.verdict == "RANGE-ABANDONED" {
+            continue;
+        }
         seen.insert(r.idx);
         let what = if r.idx < docs.len() { format!("document #{}: {}", r.idx, docs[r.idx].why.lines().next().unwrap_or("")) } else { format!("arrangement #{}", r.idx - docs.len()) };
         let replay = if r.idx < docs.len() { json!({"engine": "seqcheck", "check": "C14", "document": String::from_utf8_lossy(&docs[r.idx].text), "why": docs[r.idx].why}) } else { json!({"engine": "seqcheck", "check": "C14", "arrangement": format!("{:?}", arrs[r.idx - docs.len()])}) };
@@ -483,10 +490,12 @@ pub fn check_c14(rep: &mut Report) {
             "WRONG-MEANING" => {
                 classes.entry("accepted-with-the-wrong-meaning".to_string()).or_insert((format!("{}\n{}", what, r.detail), replay));
             }
+            "RANGE-ABANDONED" => {}
             _ => rep.machinery_errors.push(format!("case {}: {} {}", r.idx, r.verdict, r.detail)),
         }
     }
-    if seen.len() != total {
+    let died = res.iter().any(|r| r.verdict == "DIED");
+    if seen.len() != total && !died {
         rep.machinery_errors.push(format!("only {} of {} cases reported", seen.len(), total));
     }
     for (fp, (d, r)) in classes {
